@@ -141,6 +141,7 @@ for _k, _v in EXTRA4.items():
     CLAIMS[_k]['text'] += _v
 
 EXTRA5 = {
+ 'C12': ' The triangular solvers reach entries through (i, j, value) iterators only, never by position in the compressed storage; collect_diag keeps an entry iff i == j (E31.P3).',
  'C13': ' SpVec::stack_vecs shifts block k by the accumulated dimension of the blocks before it (E8b.F15).',
  'C20': ' The one-row sequence is printed only on paths where is_zero() of the parsed h or t answered false (E10.R10).',
  'C17': ' BitSeq::from_str is the character table 0 -> Bit0, 1 -> Bit1, else Err (E4.O8).',
